@@ -16,6 +16,11 @@ Transformations
   else-after-exit  ``if c: ...; return X`` + rest -> the same ``if`` with the rest as its ``else`` branch
   keyword-last   ``f(a, b)`` -> ``f(a, y=b)`` when every definition named ``f`` in the repository calls its parameter at that
                  position ``y`` (undecorated, no ``*args``)
+  split-and      ``if a and b: X`` (no else) -> nested ifs; ``not (a and b)`` -> ``not a or not b`` (De Morgan)
+  chain-split    ``a <= x <= b`` -> ``a <= x and x <= b`` (call-free middle operand)
+  ifexp-to-if    ``v = A if c else B`` / ``return A if c else B`` -> the if-statement form
+  extract-arg    ``v = f(g(x), ...)`` -> ``_arg = g(x); v = f(_arg, ...)`` (statement-level call, first argument a call)
+  else-then-flip else-after-exit followed by flip-if (``if not c: return X`` + rest -> ``if c: rest`` / ``else: return X``)
   insert-noop    a call without effect (``(lambda: None)()``, standing for a log line) at the start of every function
                  body and loop body
 """
@@ -410,6 +415,151 @@ class _ElseAfterExit(ast.NodeTransformer):
         return node
 
 
+class _SplitAnd(ast.NodeTransformer):
+    """`if a and b: X` (no else) -> `if a: if b: X`; `not (a and b)` / `not (a or b)` -> De Morgan."""
+
+    def visit_If(self, node):
+        self.generic_visit(node)
+        if not node.orelse and isinstance(node.test, ast.BoolOp) and isinstance(node.test.op, ast.And):
+            vals = node.test.values
+            inner = node.body
+            for v in reversed(vals):
+                inner = [ast.copy_location(ast.If(test=v, body=inner, orelse=[]), node)]
+            return inner[0]
+        return node
+
+    def visit_UnaryOp(self, node):
+        self.generic_visit(node)
+        if isinstance(node.op, ast.Not) and isinstance(node.operand, ast.BoolOp):
+            b = node.operand
+            op = ast.Or() if isinstance(b.op, ast.And) else ast.And()
+            return ast.copy_location(
+                ast.BoolOp(op=op, values=[ast.UnaryOp(op=ast.Not(), operand=v) for v in b.values]), node
+            )
+        return node
+
+
+class _ChainSplit(ast.NodeTransformer):
+    """`a <= x <= b` -> `a <= x and x <= b` when the middle operands are free of calls."""
+
+    def visit_Compare(self, node):
+        self.generic_visit(node)
+        if len(node.ops) < 2 or not all(_pure(c) for c in node.comparators[:-1]):
+            return node
+        parts, left = [], node.left
+        for op, right in zip(node.ops, node.comparators):
+            parts.append(ast.Compare(left=left, ops=[op], comparators=[right]))
+            left = right
+        return ast.copy_location(ast.BoolOp(op=ast.And(), values=parts), node)
+
+
+class _IfExpToIf(ast.NodeTransformer):
+    """`v = A if c else B` -> `if c: v = A` / `else: v = B`; `return A if c else B` -> `if c: return A` / `return B`."""
+
+    def _stmts(self, body):
+        out = []
+        for st in body:
+            if isinstance(st, ast.Return) and isinstance(st.value, ast.IfExp):
+                e = st.value
+                out.append(ast.copy_location(ast.If(test=e.test, body=[ast.Return(value=e.body)], orelse=[]), st))
+                out.append(ast.copy_location(ast.Return(value=e.orelse), st))
+            elif (
+                isinstance(st, ast.Assign)
+                and isinstance(st.value, ast.IfExp)
+                and len(st.targets) == 1
+                and isinstance(st.targets[0], ast.Name)
+            ):
+                e = st.value
+                out.append(
+                    ast.copy_location(
+                        ast.If(
+                            test=e.test,
+                            body=[ast.Assign(targets=st.targets, value=e.body)],
+                            orelse=[ast.Assign(targets=st.targets, value=e.orelse)],
+                        ),
+                        st,
+                    )
+                )
+            else:
+                out.append(st)
+        return out
+
+    def generic_visit(self, node):
+        super().generic_visit(node)
+        if isinstance(node, ast.ClassDef):
+            return node  # class bodies: leave
+        for f in ("body", "orelse", "finalbody"):
+            seq = getattr(node, f, None)
+            if isinstance(seq, list) and seq and isinstance(seq[0], ast.stmt):
+                setattr(node, f, self._stmts(seq))
+        return node
+
+
+class _ExtractArg(ast.NodeTransformer):
+    """`v = f(g(x), ...)` -> `_arg = g(x); v = f(_arg, ...)` for statement-level calls whose callee is a plain name or
+    dotted name and whose first positional argument is itself a call (an "extract variable" refactoring)."""
+
+    def __init__(self):
+        self.n = 0
+
+    @staticmethod
+    def _dotted(e):
+        while isinstance(e, ast.Attribute):
+            e = e.value
+        return isinstance(e, ast.Name)
+
+    def _stmts(self, body, in_func):
+        out = []
+        for st in body:
+            v = getattr(st, "value", None) if isinstance(st, (ast.Assign, ast.Return, ast.Expr)) else None
+            if (
+                in_func
+                and isinstance(v, ast.Call)
+                and self._dotted(v.func)
+                and v.args
+                and isinstance(v.args[0], ast.Call)
+                and not any(isinstance(n, (ast.Yield, ast.YieldFrom, ast.Await, ast.NamedExpr)) for n in ast.walk(v))
+            ):
+                self.n += 1
+                name = f"_arg{self.n}"
+                out.append(ast.copy_location(ast.Assign(targets=[ast.Name(id=name, ctx=ast.Store())], value=v.args[0]), st))
+                v.args[0] = ast.Name(id=name, ctx=ast.Load())
+            out.append(st)
+        return out
+
+    def _visit_body(self, node, in_func):
+        for f in ("body", "orelse", "finalbody"):
+            seq = getattr(node, f, None)
+            if isinstance(seq, list) and seq and isinstance(seq[0], ast.stmt):
+                for st in seq:
+                    if isinstance(st, (ast.FunctionDef, ast.AsyncFunctionDef)):
+                        self._visit_body(st, True)
+                    elif isinstance(st, ast.ClassDef):
+                        self._visit_body(st, False)
+                    else:
+                        self._visit_body(st, in_func)
+                setattr(node, f, self._stmts(seq, in_func))
+        for h in getattr(node, "handlers", []) or []:
+            self._visit_body(h, in_func)
+        for c in getattr(node, "cases", []) or []:
+            self._visit_body(c, in_func)
+
+    def visit_Module(self, node):
+        self._visit_body(node, False)
+        return node
+
+
+def _compose(*names):
+    def run(tree, _names=names):
+        for n in _names:
+            tree = TRANSFORMS[n](tree)
+            ast.fix_missing_locations(tree)
+            tree = ast.parse(ast.unparse(tree))
+        return tree
+
+    return run
+
+
 TRANSFORMS = {
     "else-after-exit": lambda tree: _ElseAfterExit().visit(tree),
     "keyword-last": _keyword_last,
@@ -419,7 +569,12 @@ TRANSFORMS = {
     "rename-locals": _rename_locals,
     "swap-compare": lambda tree: _SwapCompare().visit(tree),
     "flip-if": lambda tree: _FlipIf().visit(tree),
+    "split-and": lambda tree: _SplitAnd().visit(tree),
+    "chain-split": lambda tree: _ChainSplit().visit(tree),
+    "ifexp-to-if": lambda tree: _IfExpToIf().visit(tree),
+    "extract-arg": lambda tree: _ExtractArg().visit(tree),
 }
+TRANSFORMS["else-then-flip"] = _compose("else-after-exit", "flip-if")
 
 
 def python_files(repo=None):
